@@ -1,3 +1,48 @@
+import Invoke.Model.Loader
 import Driver.Util
-/-! stub: replaced by the owner of this driver -/
-def main : IO Unit := Drv.mainLoop (fun _ => "bad-op")
+/-! Line-protocol driver for the `Loader` model (C20).
+
+    load <name> <cwd> <abs:0|1> <raw> <layout>
+      name  = char codes (decimal, `.`-separated)
+      cwd   = `/`-separated components (each char codes), `-` = the root
+      raw   = the start argument split at `/`: `/`-separated components, an empty component is `e`
+      layout = `;`-separated directories `path:entries`, entries `,`-separated names
+    answer: `module|package <file> <sys.path entry> <project dir>`, `notfound` or `importerror`,
+      followed by ` h<0|1>`: 1 iff every directory from the start upwards (root excluded) is listed -/
+open Inv.Loader Drv
+
+def splitNE (s : String) (sep : String) : List String := if s.isEmpty then [] else s.splitOn sep
+
+def decPath (s : String) : Path := if s == "-" then [] else (s.splitOn "/").map decChars
+
+def decRaw (s : String) : List Name :=
+  if s == "-" then [] else (s.splitOn "/").map (fun c => if c == "e" then [] else decChars c)
+
+def decLayout (s : String) : Layout :=
+  (splitNE s ";").filterMap (fun e => match e.splitOn ":" with
+    | [p, es] => some (decPath p, (splitNE es ",").map decChars)
+    | _ => none)
+
+def encPath (p : Path) : String := if p.isEmpty then "-" else "/".intercalate (p.map encChars)
+
+def prefixesNE : Path → List Path
+  | [] => []
+  | c :: r => [c] :: (prefixesNE r).map (fun x => c :: x)
+
+def step (line : String) : String :=
+  match line.splitOn " " with
+  | ["load", name, cwd, ab, raw, lay] =>
+    let fs := fsOf (decLayout (if lay == "-" then "" else lay))
+    let nm := decChars name
+    let p := absPath (decPath cwd) (ab == "1") (decRaw raw)
+    let hyp := if (prefixesNE p).all (fun d => (fs.ls d).isSome) then " h1" else " h0"
+    (match loadFrom fs (decPath cwd) (ab == "1") (decRaw raw) nm with
+     | .ok l =>
+       (match find fs (decPath cwd) (ab == "1") (decRaw raw) nm with
+        | .package _ => "package " | _ => "module ") ++
+       encPath l.file ++ " " ++ encPath l.sysPath ++ " " ++ encPath l.parent
+     | .collectionNotFound => "notfound"
+     | .importError => "importerror") ++ hyp
+  | _ => "bad-op"
+
+def main : IO Unit := mainLoop step
